@@ -93,9 +93,11 @@ def gen_cases(tier, seed):
         for form in ('none', 'empty', 'omitted'):
             for models in ('none', 'bias'):
                 add(pattern, 3, 0.0, wa, step, [], models=models, form=form)
-        for models in ('none', 'walk', 'sm'):
+        for models in ('none', 'walk', 'sm', 'gyro_only', 'accel_only', 'stateless'):
             for s in singles:
                 if tier == 'quick' and models != 'sm' and len(s) == 1 and s[0][1] != 'P':
+                    continue
+                if tier == 'quick' and models in ('gyro_only', 'accel_only', 'stateless') and not (len(s) == 0 or s[0][0] in (1, 5, 6)):
                     continue
                 add(pattern, 3, 0.0, wa, step, s, models=models,
                     with_inc=(models == 'walk' and wa))
